@@ -22,6 +22,33 @@ def pollUntil (D : Dec F E) : Nat → St → List Ev → Out F E × St × List E
       pollUntil D fuel (pollNext D s sc).2.1 (pollNext D s sc).2.2
     else pollNext D s sc
 
+/-- where the re-polling reader stops (not on an error) is a reachable configuration, with the
+    tokens of its answer handed out (`Pending` answers hand out nothing) -/
+theorem pollUntil_reach (D : Dec F E) (sc0 : List Ev) : ∀ (fuel : Nat) (toks : List (Tok F E)) (s : St)
+    (script : List Ev), Reach D sc0 toks s script → ∀ (o : Out F E) (s' : St) (r : List Ev),
+    pollUntil D fuel s script = (o, s', r) → o.isErr = false → Reach D sc0 (toks ++ o.toks) s' r := by
+  intro fuel
+  induction fuel with
+  | zero =>
+    intro toks s script hR o s' r h _
+    simp only [pollUntil, Prod.mk.injEq] at h
+    obtain ⟨rfl, rfl, rfl⟩ := h
+    simpa [Out.toks] using hR
+  | succ fuel ih =>
+    intro toks s script hR o s' r h hne
+    rw [pollUntil] at h
+    split at h
+    · rename_i hc
+      have hpend : (pollNext D s script).1 = .pending := by
+        simp only [Bool.and_eq_true] at hc
+        cases ho : (pollNext D s script).1 <;> rw [ho] at hc <;> simp [Out.isPending] at hc
+      have hR' : Reach D sc0 (toks ++ (Out.pending : Out F E).toks) (pollNext D s script).2.1
+          (pollNext D s script).2.2 :=
+        Reach.next hR (by rw [← hpend]) rfl
+      simp only [Out.toks, List.append_nil] at hR'
+      exact ih toks _ _ hR' o s' r h hne
+    · exact Reach.next hR h hne
+
 /-! ### every poll that takes something from the transport shortens the script -/
 
 theorem pollNextLoop_len (D : Dec F E) : ∀ (script : List Ev) (s : St),
@@ -228,6 +255,32 @@ theorem pollNextLoop_errQuic_stuck (D : Dec F E) (L : Laws D) (script : List Ev)
         obtain ⟨_, d, exp, hdl, hI2, hst2⟩ := hA
         simp only [hdl] at h
         exact ih (seen ++ b) toks _ hI2 h0 (fun b' hb' => hsc b' (by simp [hb'])) hst2 c s' script' h
+
+/-! ### the first token is the first frame of the byte string, unless that one is skipped -/
+
+/-- if the automaton, over `w`, has emitted exactly one token and it is `frame g`, and the decoder
+    does not skip the first frame of `w` as unknown, then `w` itself starts with the frame `g` -/
+theorem first_frame_of_run (D : Dec F E) (L : Laws D) (w : Bytes) (g : F) (p : PSt)
+    (hrun : run D (.hdr []) w = (p, [.frame g])) (hun : ∀ n, D.dec w ≠ .unknown n) :
+    ∃ n, D.dec w = .frame g n := by
+  cases hd : D.dec w with
+  | incomplete m =>
+    have hinc : (D.dec w).isIncomplete = true := by rw [hd]; rfl
+    have := run_hdr_incomplete D w (fun i _ _ => prefix_incomplete D L w hinc i)
+    rw [this] at hrun
+    simp at hrun
+  | unknown n => exact absurd hd (hun n)
+  | error e =>
+    rw [run_of_error D L w e hd] at hrun
+    simp at hrun
+  | frame f n =>
+    have hpos : (D.dec w).pos? = some n := by rw [hd]; rfl
+    have hr := run_of_pos D L w n hpos
+    rw [hd] at hr
+    simp only [DecRes.fed] at hr
+    rw [hr] at hrun
+    simp only [Prod.mk.injEq, List.singleton_append, List.cons.injEq, Tok.frame.injEq] at hrun
+    exact ⟨n, by rw [hrun.2.1]⟩
 
 end H3.FS
 
